@@ -365,6 +365,16 @@ func (c *Conn) reader(ctx context.Context) (_ MessageType, _ io.Reader, err erro
 	if err != nil {
 		return 0, nil, err
 	}
+	// Once reading has failed, where the next frame starts is no longer known:
+	// a later read would take the rest of a payload for frame headers. Like every
+	// other failed read this closes the connection. Deferred before the unlock
+	// so that it runs after it, as close needs readMu.
+	failed := false
+	defer func() {
+		if failed {
+			c.close()
+		}
+	}()
 	defer c.readMu.unlock()
 
 	if c.readDiscarding {
@@ -377,12 +387,14 @@ func (c *Conn) reader(ctx context.Context) (_ MessageType, _ io.Reader, err erro
 
 	h, err := c.readLoop(ctx)
 	if err != nil {
+		failed = true
 		return 0, nil, err
 	}
 
 	if h.opcode == opContinuation {
 		err := errors.New("received continuation frame without text or binary frame")
 		c.writeError(StatusProtocolError, err)
+		failed = true
 		return 0, nil, err
 	}
 
@@ -442,6 +454,14 @@ func (mr *msgReader) Read(p []byte) (n int, err error) {
 		}
 		return 0, fmt.Errorf("failed to read: %w", err)
 	}
+	// See reader: a message read that has failed closes the connection, after
+	// readMu has been released.
+	failed := false
+	defer func() {
+		if failed {
+			mr.c.close()
+		}
+	}()
 	defer mr.c.readMu.unlock()
 
 	if mr.c.readDiscarding {
@@ -473,6 +493,7 @@ func (mr *msgReader) Read(p []byte) (n int, err error) {
 		return n, io.EOF
 	}
 	if err != nil {
+		failed = true
 		return n, fmt.Errorf("failed to read: %w", err)
 	}
 	return n, nil
